@@ -1799,11 +1799,19 @@ func (c *Conn) handleFutureCiphertextPacket(
 	}
 }
 
+// replayDetectorWindow returns the window handed to the replay detector: the configured
+// size rounded up to a multiple of 64. The detector's bit set drops accepted sequence
+// numbers for sizes whose remainder modulo 64 exceeds 32, which lets replays through;
+// whole 64-bit words are not affected.
+func replayDetectorWindow(window uint) uint {
+	return (window + 63) / 64 * 64
+}
+
 func (c *Conn) protectedReplayMarker(epoch uint16, sequenceNumber uint64) (func() bool, bool) {
 	common := dtlsstate.CommonState(c.state)
 	for len(common.ReplayDetector) <= int(epoch) {
 		common.ReplayDetector = append(common.ReplayDetector,
-			replaydetector.New(c.replayProtectionWindow, ^uint64(0)),
+			replaydetector.New(replayDetectorWindow(c.replayProtectionWindow), ^uint64(0)),
 		)
 	}
 	accept, ok := common.ReplayDetector[int(epoch)].Check(sequenceNumber)
@@ -1939,7 +1947,7 @@ func (c *Conn) legacyReplayMarker(header *recordlayer.Header) (func() bool, bool
 	common := dtlsstate.CommonState(c.state)
 	for len(common.ReplayDetector) <= int(header.Epoch) {
 		common.ReplayDetector = append(common.ReplayDetector,
-			replaydetector.New(c.replayProtectionWindow, recordlayer.MaxSequenceNumber),
+			replaydetector.New(replayDetectorWindow(c.replayProtectionWindow), recordlayer.MaxSequenceNumber),
 		)
 	}
 	markPacketAsValid, ok := common.ReplayDetector[int(header.Epoch)].Check(header.SequenceNumber)
